@@ -190,6 +190,8 @@ class ConnInterp:
         if isinstance(n, ast.Constant):
             if n.value is None:
                 return Scal("none")
+            if isinstance(n.value, bool):
+                return Scal("bool", n.value)
             if isinstance(n.value, (int, float)) and not isinstance(n.value, bool):
                 return Scal("lit", n.value)
             if isinstance(n.value, str):
@@ -198,6 +200,12 @@ class ConnInterp:
         if isinstance(n, ast.UnaryOp) and isinstance(n.op, ast.USub):
             v = self.lit(n)
             return Scal("lit", v) if v is not None else UNK
+        if isinstance(n, ast.UnaryOp) and isinstance(n.op, ast.Invert):
+            m = self.ev(n.operand, st, f, depth)
+            if isinstance(m, Mask):
+                flip = {"pad_valid": "pad_invalid", "pad_invalid": "pad_valid", "ne_std": "eq_std", "eq_std": "ne_std"}
+                return Mask(flip.get(m.kind, "unknown"), m.k, m.of)
+            return UNK
         if isinstance(n, ast.Attribute):
             if self.is_fill(n):
                 return Scal("std_fill")
@@ -327,6 +335,10 @@ class ConnInterp:
                 k = sign * by.v
             elif by.kind == "base_of" and a.base[0] == "decl" and sign == -1 and (by.v == a.base[1] or a.base[1] == "*" or by.v == "*"):
                 newbase = ("lit", 0)
+            elif by.kind == "base_of_or" and a.base[0] == "decl" and sign == -1 and (by.v[0] == a.base[1] or a.base[1] == "*"):
+                # attrs.get("start_index", d): the declared base when there is one, else d - right exactly when d is the format's default base
+                default = a.base[2] if len(a.base) > 2 else None
+                newbase = ("lit", 0) if by.v[1] == default else ("unknown",)
             elif by.kind == "min_valid" and a.base[0] == "decl" and sign == -1 and (len(a.base) > 2 and a.base[2] is None):
                 # base not declared: the smallest index in use is taken as the base (the format gives no better rule)
                 newbase = ("lit", 0)
@@ -373,6 +385,14 @@ class ConnInterp:
                     dv = self.ev(dt, st, f, depth)
                     return v.op(norm(n)[:60], dtype="std" if isinstance(dv, DT) and dv.kind == "std" else "other")
                 return v
+            return UNK
+        if name == "get" and isinstance(n.func, ast.Attribute) and isinstance(n.func.value, ast.Attribute) and n.func.value.attr == "attrs" and args and str_const(args[0]) in ("start_index", "_FillValue"):
+            owner = self.ev(n.func.value.value, st, f, depth)
+            if isinstance(owner, Src):
+                if str_const(args[0]) == "start_index":
+                    dflt = self.ev(args[1], st, f, depth) if len(args) > 1 else Scal("none")
+                    return Scal("base_of_or", (owner.key, dflt.v if isinstance(dflt, Scal) and dflt.kind == "lit" else None))
+                return Scal("sent_of", owner.key) if len(args) == 1 or norm(args[1]) == "None" else UNK
             return UNK
         if name == "astype" and isinstance(n.func, ast.Attribute):
             v = self.ev(n.func.value, st, f, depth)
@@ -529,6 +549,12 @@ class ConnInterp:
             env[p] = v
         for k, v in kvals.items():
             env[k] = v
+        # parameters that were not passed take their literal defaults
+        a_ = func.node.args
+        pos_ = [x.arg for x in a_.posonlyargs + a_.args]
+        for prm, dflt in list(zip(pos_[len(pos_) - len(a_.defaults):], a_.defaults)) + [(x.arg, d) for x, d in zip(a_.kwonlyargs, a_.kw_defaults) if d is not None]:
+            if prm not in env and isinstance(dflt, ast.Constant):
+                env[prm] = Scal("none") if dflt.value is None else Scal("bool", dflt.value) if isinstance(dflt.value, bool) else Scal("str", dflt.value) if isinstance(dflt.value, str) else Scal("lit", dflt.value) if isinstance(dflt.value, (int, float)) else UNK
         st0 = State(env, facts)
         outs = self.block(func.node.body, [st0], func, depth)
         rets = [s.ret for s in outs if s.ret is not None]
@@ -560,6 +586,13 @@ class ConnInterp:
         # "attr" in X.attrs
         if isinstance(test, ast.UnaryOp) and isinstance(test.op, ast.Not):
             return self.refine(test.operand, not truth, st, f, depth)
+        if isinstance(test, ast.Name):
+            v = st.env.get(test.id)
+            if isinstance(v, Scal) and v.kind == "bool":
+                return v.v == truth
+            if isinstance(v, Scal) and v.kind == "none":
+                return not truth
+            return True
         if isinstance(test, ast.BoolOp):
             if (isinstance(test.op, ast.And) and truth) or (isinstance(test.op, ast.Or) and not truth):
                 ok = True
@@ -847,6 +880,8 @@ class ConnInterp:
                     # entries still carrying the source's sentinel are shifted together with the indices
                     st.env[t.value.id] = self.shift(a, by, True, sign, norm(n) + " [source sentinel not yet replaced: shifted with the indices]", st.facts)
                     return
+            elif isinstance(iv, Mask) and iv.kind == "pad_valid":
+                valid_only = True     # exactly the entries inside each row's count move; what lies beyond is replaced separately (padding obligation)
             elif isinstance(sl, ast.Tuple) and len(sl.elts) == 2 and isinstance(sl.elts[1], ast.Slice):
                 up = sl.elts[1].upper
                 uv = self.ev(up, st, f, depth) if up is not None else None
